@@ -31,7 +31,7 @@ SAME = {4: {1: 0}}   # symbol -> the symbol it is numerically equal to
 def canon_script(script, cols):
     m = SAME.get(cols, {})
     return tuple(m.get(s, s) for s in script)
-HISTORIES = {"empty": [], "h1": [0], "h1h2": [0, 1], "h1h1h2": [0, 0, 1]}
+HISTORIES = {"empty": [], "h1": [0], "h1h2": [0, 1], "h1h1h2": [0, 0, 1], "h2only": [1]}
 
 
 class NeedMore(Exception):
@@ -180,8 +180,15 @@ def explore_cell(cell):
     st = res["stats"]
     stack = [first]
     nsym = 4
+    alt = HISTORIES[cell["alt_hist"]] if cell.get("alt_hist") else None
+    turn = 0
+    hist0 = hist
     while stack:
         script = stack.pop()
+        if alt is not None:
+            # one sampler object serving two runs in turns: successive calls see two DIFFERENT histories (neither an extension of the other)
+            turn += 1
+            hist = hist0 if turn % 2 else alt
         impl = impl_run(sampler, script, hist, cols, pad, loss_kind)
         ref = ref_run(canon_script(script, cols), hist, B, P)
         res["transitions"] += 1
@@ -189,7 +196,7 @@ def explore_cell(cell):
         for key, what in vs:
             if len(res["violations"]) < 5:
                 res["violations"].append({"key": key, "what": f"cols={cols} history={hname} B={B} passes={P} script={list(script)}: {what}",
-                                          "case": {"cols": cols, "hist": hname, "B": B, "P": P, "script": list(script), "first": list(first), "pad": pad, "loss_kind": loss_kind, "base": cell.get("base", "base")}})
+                                          "case": {"cols": cols, "hist": hname, "B": B, "P": P, "script": list(script), "first": list(first), "pad": pad, "loss_kind": loss_kind, "base": cell.get("base", "base"), "alt_hist": cell.get("alt_hist")}})
             st["violating_executions"] = st.get("violating_executions", 0) + 1
         if vs:
             continue
@@ -227,7 +234,7 @@ def replay_case(case):
     violation which needs state left by an EARLIER sample() call on the object reproduces; reports what is found for this script."""
     if "first" in case:
         r = explore_cell({"cols": case["cols"], "hist": case["hist"], "B": case["B"], "P": case["P"], "first": case["first"], "pad": case.get("pad", 0),
-                          "loss_kind": case.get("loss_kind", "zeros"), "base": case.get("base", "base")})
+                          "loss_kind": case.get("loss_kind", "zeros"), "base": case.get("base", "base"), "alt_hist": case.get("alt_hist")})
         return [{"key": v["key"], "what": v["what"]} for v in r["violations"] if v["case"]["script"] == case["script"]]
     hist = HISTORIES[case["hist"]]
     sampler = _make_sampler(case["B"], case["P"])
@@ -244,7 +251,7 @@ def main(ctx):
     else:
         budget = {1: range(0, 7), 2: range(0, 5), 3: range(0, 3)}
     # VERIF_SEED only rotates which history name is enumerated first (order), never what is covered
-    hnames = list(HISTORIES)
+    hnames = [h for h in HISTORIES if h != "h2only"]   # (h2only serves the alternating-history cells)
     hnames = hnames[ctx.seed % len(hnames):] + hnames[:ctx.seed % len(hnames)]
     for cols in (1, 2, 3, 4):
         for hname in hnames:
@@ -261,6 +268,11 @@ def main(ctx):
     for pad in (9000, 10001, 12345) if ctx.quick else (4095, 9000, 10001, 12345, 20000):
         for first in itertools.product(range(4), repeat=2):
             cells.append({"cols": 5, "hist": "h1h2", "B": 2, "P": 2, "first": list(first), "pad": pad})
+    for cols in (1, 2):
+        for hname, alt in (("h1", "h2only"), ("h1h2", "h1"), ("h2only", "h1h1h2")):
+            for B, P in ((1, 2), (2, 2), (3, 1)):
+                for first in itertools.product(range(4), repeat=B):
+                    cells.append({"cols": cols, "hist": hname, "alt_hist": alt, "B": B, "P": P, "first": list(first)})
     for hname in ("h1", "h1h2", "h1h1h2"):
         for B, P in ((1, 2), (2, 1), (2, 2), (3, 1)):
             for first in itertools.product(range(4), repeat=B):
